@@ -47,7 +47,7 @@ Ambient Temperature, 15
 Plant Lifetime, 20
 Economic Model, 2
 Discount Rate, 0.06
-Inflation Rate During Construction, 0
+Inflation Rate During Construction, 0.05
 Starting Electricity Sale Price, 0.12
 Ending Electricity Sale Price, 0.12
 Print Output to Console, 0
@@ -65,7 +65,9 @@ GEO_INPUTS = {
     'Gradient 1': [('uniform', 45, 85), ('normal', 65, 4), ('triangular', 50, 65, 80)],
     'Reservoir Depth': [('uniform', 1.8, 3.2), ('triangular', 2.0, 2.5, 3.0)],
     'Utilization Factor': [('uniform', 0.7, 0.95)],
-    'Ambient Temperature': [('triangular', 10, 15, 25), ('uniform', 5, 25)],
+    'Ambient Temperature': [('triangular', 10, 15, 25), ('uniform', 5, 25), ('triangular', 10, 10, 25), ('triangular', 5, 25, 25)],
+    # a sampled name that is a proper prefix of another parameter set in the base input ('Inflation Rate During Construction')
+    'Inflation Rate': [('uniform', 0.01, 0.04)],
     'Production Flow Rate per Well': [('lognormal', 4.2, 0.15), ('uniform', 40, 100)],
     'Reservoir Heat Capacity': [('normal', 1050, 30)],
     'Injection Temperature': [('uniform', 55, 80)],
@@ -78,7 +80,7 @@ GEO_OUTPUTS = ['Average Net Electricity Production', 'Electricity breakeven pric
 HIP_INPUTS = {
     'Reservoir Porosity': [('uniform', 9.0, 28.0)],
     'Reservoir Area': [('uniform', 50.0, 120.0), ('lognormal', 4.3, 0.2)],
-    'Reservoir Thickness': [('uniform', 0.122, 0.299), ('triangular', 0.12, 0.2, 0.3)],
+    'Reservoir Thickness': [('uniform', 0.122, 0.299), ('triangular', 0.12, 0.2, 0.3), ('triangular', 0.12, 0.3, 0.3), ('triangular', 0.12, 0.12, 0.3)],
     'Reservoir Temperature': [('uniform', 130, 170), ('normal', 150, 8)],
     'Rejection Temperature': [('uniform', 20, 33)],
 }
@@ -118,6 +120,15 @@ def make_settings(rng, program, iterations, failure=0.0, n_inputs=None, n_output
     lines.append(f'ITERATIONS, {iterations}')
     return {'program': program, 'inputs': [(nm, list(d)) for nm, d in chosen], 'outputs': outputs, 'iterations': iterations,
             'text': '\n'.join(lines) + '\n', 'failure': failure}
+
+
+def with_input(st, name, dist):
+    """The same settings with input `name` drawn from `dist` (added, or replacing its earlier distribution)."""
+    inputs = [(nm, d) for nm, d in st['inputs'] if nm != name] + [(name, list(dist))]
+    lines = [f'INPUT, {nm}, {d[0]}, ' + ', '.join(str(x) for x in d[1:]) for nm, d in inputs]
+    lines += [f'OUTPUT, {o}' for o in st['outputs']]
+    lines.append(f'ITERATIONS, {st["iterations"]}')
+    return dict(st, inputs=inputs, text='\n'.join(lines) + '\n')
 
 
 def run_mc(settings, workers=None, delay=0.0, base_text=None):
